@@ -307,6 +307,10 @@ pub struct CliCase {
     /// -U with a pattern that can match a line terminator (the multi-line searcher)
     #[serde(default)]
     pub multiline: bool,
+    /// with `count`: 0 = -c, 1 = -c --include-zero, 2 = --files-without-match,
+    /// 3 = --count-matches --include-zero
+    #[serde(default)]
+    pub summary_kind: u8,
 }
 
 const ML_PATTERNS: &[&str] = &["\\w+\\n\\w+", "ab\\n", "c\\s+a", "b\\n(?:z|a)?", "(?s)ab.{1,3}c"];
@@ -331,6 +335,7 @@ pub fn gen_cli_case(t: &mut Tape) -> CliCase {
         count: t.chance(1, 8),
         passthru: t.chance(1, 6),
         multiline: false,
+        summary_kind: t.below(4) as u8,
     }
     .with_multiline(t)
 }
@@ -368,7 +373,12 @@ fn run_cli(case: &CliCase, dir: &TempDir, mode: BinMode) -> (String, crate::cli:
         }
     }
     if case.count {
-        rg = rg.arg("-c");
+        rg = match case.summary_kind {
+            0 => rg.arg("-c"),
+            1 => rg.args(["-c", "--include-zero"]),
+            2 => rg.arg("--files-without-match"),
+            _ => rg.args(["--count-matches", "--include-zero"]),
+        };
     }
     if case.multiline {
         rg = rg.arg("-U");
@@ -459,9 +469,19 @@ pub fn check_cli(case: &CliCase) -> Verdict {
     }
     let nul = first_nul.unwrap();
     if case.count {
-        // count mode: only safety and status consistency are asserted
+        // summary modes have no place for a warning: a traversed file with binary data is dropped,
+        // whether or not zero counts / files without a match are reported
+        let implicit_quit = case.access == Access::Traversal && case.mode == BinMode::Default;
+        // (on a slice - memory map, or the multi-line heap read - only the first 64 KiB and the matching lines are examined: a NUL elsewhere
+        // is not in the examined portion)
+        // (-U with a pattern that can match a terminator reads the file to the heap and searches it as a slice)
+        let examined = !(case.mmap == Some(true) || case.multiline) || nul < 65536;
+        if implicit_quit && examined && !out.stdout.is_empty() {
+            return Verdict::Fail(fail("a traversed file with a NUL byte is reported by a summary mode (count / files-without-match) instead of being dropped".into()).fact("summary-mode"));
+        }
         let mut info = Info::new(false);
         info.class("count_mode_safety_only");
+        info.class_if(implicit_quit && examined, "summary_mode_traversed_binary_file_dropped");
         return Verdict::Pass(info);
     }
     // printed ordinary records must be a prefix of the --text records
